@@ -446,3 +446,54 @@ func (a Audit) Class() string {
 	}
 	return "signature-path-quorum-short"
 }
+
+// StrictPool is the harness monitor for the hypotheses `Inv`, `VersionBound`, `NoSelfVouch` of Props/C34.lean
+// C34_impl_safe_partial, evaluated with the real keys on a real pool's content: every stored endorse signature, committer
+// signature and EndorsersSig entry verifies under the key of the index it is filed under, for the hash of the (empty)
+// block of the proposal of the named proposer THAT THIS POOL STORES, every index is a consensus peer, and no proposer is
+// recorded as signer of its own proposal in a commit message.
+func StrictPool(d vbft.VerifCand, pubs []keypair.PublicKey, N int, hashOf func(p uint32, fe bool) (common.Uint256, bool)) bool {
+	ok := func(idx uint32, p uint32, fe bool, sig []byte) bool {
+		if int(idx) >= N || int(idx) >= len(pubs) {
+			return false
+		}
+		h, have := hashOf(p, fe)
+		if !have {
+			return false
+		}
+		s, err := csig.Deserialize(sig)
+		if err != nil {
+			return false
+		}
+		return csig.Verify(pubs[idx], h[:], s)
+	}
+	for _, e := range d.EndorseSigs {
+		for _, s := range e.Sigs {
+			if !ok(e.Endorser, s.Proposer, s.ForEmpty, s.Sig) {
+				return false
+			}
+		}
+	}
+	for _, m := range d.CommitMsgs {
+		if int(m.Proposer) >= N || m.Committer == m.Proposer || !ok(m.Committer, m.Proposer, m.ForEmpty, m.Sig) {
+			return false
+		}
+		for k, s := range m.EndorsersSig {
+			if k == m.Proposer || !ok(k, m.Proposer, m.ForEmpty, s) {
+				return false
+			}
+		}
+	}
+	return true
+}
+
+// StrictNode: StrictPool for a pool-level harness node (hash ids of the World, stored versions from the ghost table).
+func (n *Node) StrictNode() bool {
+	return StrictPool(n.Dump(BlkNum), n.W.Pubs, int(n.N), func(p uint32, fe bool) (common.Uint256, bool) {
+		ver, have := n.Vers[p]
+		if !have {
+			return common.Uint256{}, false
+		}
+		return n.W.Hash(BlockHashID(uint64(p), ver, fe)), true
+	})
+}
